@@ -299,8 +299,11 @@ func varsOf(t Term, acc *[]*Var) {
 	}
 }
 
-// standard order: Var < Float < Int < Atom < Comp
-func compare(a, b Term) int {
+// standard order: Var < Float < Int < Atom < Comp. Every visited pair is charged to the work budget: the
+// comparison walks the terms as trees (as the real system does), which is exponential in the size of a term
+// with shared subterms.
+func (m *base) compare(a, b Term) int {
+	m.tick()
 	a, b = deref(a), deref(b)
 	rank := func(t Term) int {
 		switch t.(type) {
@@ -363,7 +366,7 @@ func compare(a, b Term) int {
 			return c
 		}
 		for i := range x.args {
-			if c := compare(x.args[i], y.args[i]); c != 0 {
+			if c := m.compare(x.args[i], y.args[i]); c != 0 {
 				return c
 			}
 		}
@@ -373,7 +376,7 @@ func compare(a, b Term) int {
 
 // compareHasVarPair reports whether comparing a and b reaches a pair of distinct variables
 // (the outcome is then implementation dependent).
-func compareHasVarPair(a, b Term) bool {
+func (m *base) compareHasVarPair(a, b Term) bool {
 	a, b = deref(a), deref(b)
 	switch x := a.(type) {
 	case *Var:
@@ -385,10 +388,10 @@ func compareHasVarPair(a, b Term) bool {
 			return false
 		}
 		for i := range x.args {
-			if compareHasVarPair(x.args[i], y.args[i]) {
+			if m.compareHasVarPair(x.args[i], y.args[i]) {
 				return true
 			}
-			if compare(x.args[i], y.args[i]) != 0 {
+			if m.compare(x.args[i], y.args[i]) != 0 {
 				return false
 			}
 		}
@@ -434,8 +437,8 @@ func variant(a, b Term) bool {
 	return rec(a, b)
 }
 
-func sortTerms(ts []Term) {
-	sort.SliceStable(ts, func(i, j int) bool { return compare(ts[i], ts[j]) < 0 })
+func (m *base) sortTerms(ts []Term) {
+	sort.SliceStable(ts, func(i, j int) bool { return m.compare(ts[i], ts[j]) < 0 })
 }
 
 // ---- conversion from/to rt.Term -------------------------------------------------------------------
